@@ -37,6 +37,13 @@ template <class G> void pathCase(G &g, unsigned s, unsigned t) {
     emitGuarded([&] { Segs o(1); putPaths(o[0], findAllGeodesics(g, s, t)); return o; });
     emitGuarded([&] { Segs o(1); for (auto &p : findGeodesicsFromVertex(g, s)) putPath(o[0], p); return o; });
     emitGuarded([&] { Segs o(1); for (auto &ps : findAllGeodesicsFromVertex(g, s)) putPaths(o[0], ps); return o; });
+    // the two reconstruction functions called directly with (s, t): they take vertex indices themselves (C07). The table handed in is the
+    // one the search from s computes, or from vertex 0 when s is out of range (the call has to be rejected before it is looked at)
+    unsigned s0 = s < g.getSize() ? s : 0;
+    emitGuarded([&] { Segs o(1); Predecessors P; if (g.getSize() > 0) P = findVertexPredecessors(g, s0);
+        putPath(o[0], findPathToVertexFromPredecessors(g, s, t, P)); return o; });
+    emitGuarded([&] { Segs o(1); MultiplePredecessors P; if (g.getSize() > 0) P = findAllVertexPredecessors(g, s0);
+        putPaths(o[0], findMultiplePathsToVertexFromPredecessors(g, s, t, P)); return o; });
 }
 template <class G> void djCase(G &g, unsigned s) {
     emitGuarded([&] { g.scans.clear(); auto r = findGeodesicsDijkstra(g, s); Segs o(4);
